@@ -20,6 +20,8 @@ CLAIMS = {
             "design_ref": "DESIGN.md §5 C14", "note": _NOTE, "technique": "Coq proof (round-trip law) + lock-step correspondence"},
     "C19": {"text": "The model is a function of immutable values, so non-interference is by construction; the theorem shows the model never manufactures the scribble marker, which makes the detector sound; the correspondence is re-run while the harness overwrites every map reachable from every argument and result.",
             "design_ref": "DESIGN.md §5 C19", "note": _NOTE, "technique": "Coq proof (marker-freeness invariant) + correspondence under scribbling"},
+    "C18": {"text": "Coq theorems: every draw of rand.Int's contract lands in the window (degenerate windows included), the normalized time stays within the normalized window (exactly base + in-window offset for whole-millisecond inputs), schedule-at-now yields the normalized clock reading, decode errors exactly for malformed durations, the mutating repository stores exactly the mutated parameters. The real decoder / mutators / ParamMutatingRepository are run under recover on generated metadata and compared with the model (standard-library parsers as oracles).",
+            "design_ref": "DESIGN.md §5 C18", "note": _NOTE + " Oracles: time.ParseDuration, strconv.ParseInt, crypto/rand.Int (0 <= v < max).", "technique": "Coq proof (arithmetic lemmas by lia) + model/implementation correspondence on generated inputs"},
 }
 _later = "model and correspondence harness not built yet in this session (in progress; see DESIGN.md §9 staging order)"
 NOT_APPLICABLE = {("C%02d" % i): _later for i in range(1, 21)}
